@@ -198,7 +198,7 @@ SPEC = {
     # UsageTables: C02's translator (match-arm / field inventory of gather_usage_*: which fields of every statement / expression /
     # initialiser variant the usage analysis descends into)
     "gens": ["HlslGenTables", "HlslIntrinsicTables", "HlslVecTables", "FmtTables", "ParseTables", "Reserved", "UsageTables"],
-    "lean_modules": ["RsslVerif.Thm.C01", "RsslVerif.Thm.C01Names", "RsslVerif.Thm.C01Vec", "RsslVerif.Thm.C09", "RsslVerif.Thm.C15",
+    "lean_modules": ["RsslVerif.Thm.C01", "RsslVerif.Thm.C01Decl", "RsslVerif.Thm.C01Names", "RsslVerif.Thm.C01Vec", "RsslVerif.Thm.C09", "RsslVerif.Thm.C15",
                      "RsslVerif.Thm.C02"],
     "theorems": [T + n for n in [
         "op_table_is_identity", "op_table_injective", "intrinsic_table_is_identity", "exporter_shape_as_modelled",
@@ -209,6 +209,10 @@ SPEC = {
         # comparisons of a Prim are independent (NaN): the "opposite comparison" is not the negation (seeded mutant C01-3)
         "opposite_comparison_is_not_negation", "ifelse_opposite_condition_changes_meaning",
         "statement_attribute_names_roundtrip",
+        # Thm/C01Decl.lean: modules with function prototypes (FunctionDeclaration arm, only_declare) — the definitions among
+        # the emitted items are genProg of the implementations, a prototype announces the definition's signature
+        "declaration_arms_as_modelled", "definitions_of_module", "gen_sem_module", "prototype_agrees_with_definition",
+        "prototype_without_implementation_is_refused",
         # vector layer (Thm/C01Vec.lean): shape-changing casts, swizzles, numeric constructors, component-wise operators
         "exporter_vec_shape_as_modelled", "swizzle_letters_are_identity", "vector_type_names_roundtrip",
         "vector_intrinsic_table_is_identity", "wide_constants_keep_kind_and_payload",
@@ -288,7 +292,23 @@ SPEC = {
             "2.5f, true, (int)-1; an enumerator / a variable of the same enum) x the 18 binary operators x both operand orders, compound "
             "assignments with the enum on the right, ?: between values of one enum; since fix 80dd7f9 the type checker does such an "
             "operation in the enum's underlying type — `(uint)U::UM > (uint)i`, `(uint)x == 0u` — and accepts an enum next to an "
-            "untyped literal; 7 argument vectors with 0, -1, INT_MIN / INT_MAX, UINT_MAX, NaN; C01.vfn) and the corpus; argument vectors of all generated streams "
+            "untyped literal; 7 argument vectors with 0, -1, INT_MIN / INT_MAX, UINT_MAX, NaN; C01.vfn), the declaration-form stream (declforms.rs, every tier: function prototypes P next to the definition D "
+            "and a user F in the orders P-D-F, P-F-D, D-P-F, D-F-P, repeated prototypes, prototypes of the tested function itself, a chain of "
+            "functions that reach each other only through prototypes, prototypes that spell the parameters differently / swapped / with "
+            "reserved words, out / inout / bool / uint / float signatures, a static global between prototype and definition, loops and "
+            "switch in a function defined after its use (19 C01.fn programs: the Lean model recomputes tree and both semantics); default "
+            "arguments with a prototype of another function around and with expressions over globals / functions known through a "
+            "prototype, vector / struct / array / enum parameters and results, overload sets declared in another order than defined and "
+            "called with an enum argument, prototypes in re-opened and nested namespaces, a function template with a prototype (refused "
+            "by the exporter: FunctionNotDefined), template instantiations with a struct argument and with value parameters, precise "
+            "parameters / locals / struct members (kept in place: separate oracle on the exported trees), one-component vectors, unsuffixed "
+            "float literals folded to int / uint / bool, four-column matrices (15 C01.vfn programs); and every third program of the random "
+            "C01.fn / C01.vfn streams is rewritten (protoize) so that about half of its plain functions get prototypes — before the "
+            "definition, hoisted in front of the first function, after the definition, repeated at the end — and some definitions move "
+            "behind all their uses; the re-parsed text is read by the C++ / HLSL declaration rules (protos.rs: one definition per "
+            "signature, a prototype agrees with its definition in return and parameter types, default arguments accumulate over the "
+            "declarations and none is given twice, declared before the calling body, enough arguments for the parameters without "
+            "default) and any breach is an oracle failure) and the corpus; argument vectors of all generated streams "
             "draw floats from NaNs (quiet, signalling, negative, full payload), both zeros, infinities, subnormals, FLT_MIN / FLT_MAX, the "
             "conversion limits around 2^24 / 2^31 / 2^32, and ints from 0, +-1, INT_MIN(+1), INT_MAX, UINT_MAX(-1), 31 / 32 / 33, rounding "
             "boundaries; the second vector of every function has NaN in every float parameter; statement attributes are evaluated through "
@@ -319,7 +339,16 @@ SPEC = {
                   "StatementKind, each textually the modelled one: statementArmsAsModelled, ifElseArmAsModelled, the attribute wrapper, "
                   "generate_for_init), every arm of generate_expression (one unguarded arm per variant; leaf / operator / call / ternary "
                   "arms pinned) and the call / variable-definition helpers. Operator, literal, intrinsic, "
-                  "swizzle tables and the shapes of the arms are re-extracted from the source on every run; both models are compared "
+                  "swizzle tables and the shapes of the arms are re-extracted from the source on every run. "
+                  "Modules with function prototypes (Thm/C01Decl over Model/GenHlslDecl: the FunctionDeclaration / Function arms of "
+                  "generate_root_definition and the only_declare flag of generate_function_inner, pinned by the re-extracted fact "
+                  "declarationArmsAsModelled): for every list of declarations and definitions in any number and order the definitions among "
+                  "the emitted items are exactly genProg of the module's implementations (definitions_of_module), hence the emitted module "
+                  "computes what the typed module computes (gen_sem_module = gen_sem_program through it), every emitted prototype has the "
+                  "name, return type and parameters of the emitted definition and no body (prototype_agrees_with_definition), and a declared "
+                  "function without implementation is the export error FunctionNotDefined (prototype_without_implementation_is_refused). "
+                  "Default arguments are outside the scalar Lean model, so the two default-argument findings live in the harness oracle only. "
+                  "Both models are compared "
                   "with the real exporter's trees and the Lean IR semantics with the harness's evaluators on generated programs, under a "
                   "concrete interpretation whose comparisons and int<->float conversions are the IEEE-754 / Direct3D ones (NaN unordered, "
                   "+0 == -0, truncation, NaN -> 0, saturation, round-to-nearest-even) and whose arithmetic and built-ins satisfy no "
@@ -383,6 +412,14 @@ SPEC = {
         "evaluators and the Lean model see the statement without them; the harness checks that the exporter keeps them in place",
         "for the forms outside the Lean models (C01.vfn): harness/src/c01/virev.rs and vtxev.rs (two Rust evaluators written from the "
         "IR's and HLSL's rules respectively) and the value generator; a wrong reading shared by both would be invisible",
+        "harness/src/c01/protos.rs: our reading of the C++ / HLSL (DXC = clang) declaration rules for the re-parsed text — a function "
+        "may be declared any number of times and defined once, redeclarations agree in return and parameter types, a default argument "
+        "may be given by any one declaration but not by two ([dcl.fct.default]/4: redefinition of default argument), a function is "
+        "declared before the body that calls it, a call supplies at least the parameters without default; the evaluators then run the "
+        "definitions only.  `precise` has no meaning for values in either evaluator; protos.rs compares its positions (parameters, local "
+        "declarators, struct members) between the typed module and the exporter's trees.  A named template type parameter is accepted "
+        "only when it carries the name of a struct of the module and every call binds it to that struct (how the exporter emits an "
+        "instantiation with a struct argument); unnamed type / value parameters are unused by construction",
         "names: the emitted identifiers denote the IR's entities (property C15, obligations cited; Thm/C01Names for the local pass); "
         "the harness builds the request's name context with NameMap::build(module, RESERVED_NAMES of hlsl/src/names.rs read from the "
         "source tree, true) as GenerateContext::new does — a different call would show as a tree disagreement; "
@@ -401,5 +438,13 @@ SPEC = {
         "no recursion (HLSL forbids it): call depth bounded by the fuel of Ir.phi / Ast.phi",
         "vector variables are assigned only by a statement-level assignment in the Lean vector layer (none nested in an expression)",
         "an `out` parameter is uninitialised on entry of the callee (both vector-stream evaluators); evaluation order left to right",
+        "covered by the correspondence run and its oracle only (inside functions the Lean model transcribes, outside the model): default "
+        "arguments (with or without prototypes), prototypes of overloads / templates / functions in namespaces (Model/GenHlslDecl has "
+        "plain functions), template instantiations with struct or value arguments (generate_function_inner's template_params), "
+        "`precise` (generate_function_param / generate_variable_definition / generate_struct), four-column matrix components; "
+        "the refusal FunctionNotDefined of a module whose declared function (or template instantiation) has no implementation is "
+        "accepted as `ok(export refused)` when both flavours and the public compile() refuse",
+        "not reached by any stream (evaluators lack the value kinds / storage): half / double / 64-bit constants, static locals, sizeof, "
+        "enum constants without a matching enumerator, discard",
     ],
 }
